@@ -32,16 +32,16 @@ pub mod rt;
 #[path = "gen/m14a.rs"] mod m14a;
 #[path = "gen/m15t.rs"] mod m15t;
 #[path = "gen/m15a.rs"] mod m15a;
-#[path = "gen/m16t.rs"] mod m16t;
-#[path = "gen/m16a.rs"] mod m16a;
+#[path = "gen/m17t.rs"] mod m17t;
+#[path = "gen/m17a.rs"] mod m17a;
 #[path = "gen/m21t.rs"] mod m21t;
 #[path = "gen/m21a.rs"] mod m21a;
-#[path = "gen/m24t.rs"] mod m24t;
-#[path = "gen/m24a.rs"] mod m24a;
-#[path = "gen/m27t.rs"] mod m27t;
-#[path = "gen/m27a.rs"] mod m27a;
-#[path = "gen/m28t.rs"] mod m28t;
-#[path = "gen/m28a.rs"] mod m28a;
+#[path = "gen/m25t.rs"] mod m25t;
+#[path = "gen/m25a.rs"] mod m25a;
+#[path = "gen/m26t.rs"] mod m26t;
+#[path = "gen/m26a.rs"] mod m26a;
+#[path = "gen/m31t.rs"] mod m31t;
+#[path = "gen/m31a.rs"] mod m31a;
 
 fn main() {
     use std::io::{BufRead, Write};
@@ -88,16 +88,16 @@ fn main() {
         ("m14a", "S") => rt::run_case(items, orc, |it| m14a::SParser::new().parse(it)),
         ("m15t", "S") => rt::run_case(items, orc, |it| m15t::SParser::new().parse(it)),
         ("m15a", "S") => rt::run_case(items, orc, |it| m15a::SParser::new().parse(it)),
-        ("m16t", "N0") => rt::run_case(items, orc, |it| m16t::N0Parser::new().parse(it)),
-        ("m16a", "N0") => rt::run_case(items, orc, |it| m16a::N0Parser::new().parse(it)),
+        ("m17t", "N0") => rt::run_case(items, orc, |it| m17t::N0Parser::new().parse(it)),
+        ("m17a", "N0") => rt::run_case(items, orc, |it| m17a::N0Parser::new().parse(it)),
         ("m21t", "N0") => rt::run_case(items, orc, |it| m21t::N0Parser::new().parse(it)),
         ("m21a", "N0") => rt::run_case(items, orc, |it| m21a::N0Parser::new().parse(it)),
-        ("m24t", "N0") => rt::run_case(items, orc, |it| m24t::N0Parser::new().parse(it)),
-        ("m24a", "N0") => rt::run_case(items, orc, |it| m24a::N0Parser::new().parse(it)),
-        ("m27t", "N0") => rt::run_case(items, orc, |it| m27t::N0Parser::new().parse(it)),
-        ("m27a", "N0") => rt::run_case(items, orc, |it| m27a::N0Parser::new().parse(it)),
-        ("m28t", "N0") => rt::run_case(items, orc, |it| m28t::N0Parser::new().parse(it)),
-        ("m28a", "N0") => rt::run_case(items, orc, |it| m28a::N0Parser::new().parse(it)),
+        ("m25t", "N0") => rt::run_case(items, orc, |it| m25t::N0Parser::new().parse(it)),
+        ("m25a", "N0") => rt::run_case(items, orc, |it| m25a::N0Parser::new().parse(it)),
+        ("m26t", "N0") => rt::run_case(items, orc, |it| m26t::N0Parser::new().parse(it)),
+        ("m26a", "N0") => rt::run_case(items, orc, |it| m26a::N0Parser::new().parse(it)),
+        ("m31t", "N0") => rt::run_case(items, orc, |it| m31t::N0Parser::new().parse(it)),
+        ("m31a", "N0") => rt::run_case(items, orc, |it| m31a::N0Parser::new().parse(it)),
             _ => "NOPARSER".to_string(),
         };
         writeln!(out, "{}", r).unwrap();
